@@ -93,6 +93,22 @@ class Unit:
     def on_path_start(self, vc, I):
         pass
 
+    # ---- generator functions: the consumer takes every item; `on_yield` states what each item must satisfy
+    def on_yield(self, vc, a, o, item):
+        return ()
+
+    def drive_generator(self, vc, I, a, o, gen):
+        n = 0
+        while True:
+            try:
+                item = next(gen.pygen)
+            except StopIteration:
+                break
+            n += 1
+            for name, fml in self.on_yield(vc, a, o, item):
+                vc.check('yield:' + name, fml)
+        return None
+
     # ---- @contextmanager functions: verified as enter ; (body of the caller: arbitrary, may raise) ; exit
     def enter_post(self, vc, a, o, val):
         return ()
